@@ -79,6 +79,26 @@ for _p, _t in (("C02", "quit / edit / buffer refusals, modified-flag soundness, 
         note="Model scope NB=2..3 exhaustively; conformance sampled at NB=16. Text of non-current buffers is compared by "
              "length and hash. A session that straddles a wall-clock second is re-run (file times have 1 s granularity).")
 
+CHECKS["C01"] = dict(
+    level="model_checking",
+    text="MC_FileIO.tla models the write path of lbuf_wr (batching, direct writes, write_fully with every short count, final "
+         "flush, ftruncate over a longer target), the read loop and the string-buffer capacity rule, parametric in batch, chunk "
+         "and quantum, and is explored exhaustively at small constants together with the Split/Join laws on all byte strings "
+         "<= 6; the same length shapes are instantiated at the real constants and read/written by the traced binary under the "
+         "syscall shim: result bytes, recorded line/byte counts, the sum of the write calls and the ftruncate length.",
+    design="8/C01", technique="TLA+ state machine of the I/O paths checked by TLC; boundary shapes replayed at the real constants (M1+M4)",
+    note="The model is bound to lbuf.c by the shapes and by the logged call totals, not instruction by instruction; how bytes "
+         "are batched is deliberately not prescribed. NUL bytes are outside the property.")
+CHECKS["C03"] = dict(
+    level="fault_enumeration",
+    text="For 4 buffer sizes x 5 write/quit commands the shim records the open/write/ftruncate/close sequence and then "
+         "fails every position with every error kind and cuts every write short; status, message, modified flag, undo "
+         "position, a following refused :q, a forced retry and the final file must equal Bufs!Step for the failure class. "
+         "Guards against foreign and newer files come from Gen_Bufs behaviours with files touched and rewritten between "
+         "commands; MC_Bufs model-checks the same rules.",
+    design="8/C03", technique="fault enumeration at every syscall position against the TLA+ model Bufs.tla (M1+M4); TLC on MC_Bufs",
+    note="A failing ftruncate and write returning 0 are outside the property's fault set. File times are driven 1000 s apart.")
+
 NOT_YET = {}
 
 def main():
